@@ -16,7 +16,7 @@ RULE = ("cases = (input bytes, depth limit) from skeleton x exhaustive small-alp
 ASSUMPTIONS = ["CPython 3.12, regex and pefile wheels are trusted", "inputs capped at 16 KiB (thorough: one 64 KiB-1 MiB class)",
                "non-termination is operationalised as 3x the per-case CPU budget"]
 EXPECTED_WALL = {"quick": 60, "thorough": 600}
-REQUIRED = {"evaluations": 1000, "views_run": 1000, "gen:skel": 100, "gen:cmd": 6, "gen:pe": 5, "gen:xorbytes": 5, "gen:repeatunit": 1000}
+REQUIRED = {"evaluations": 1000, "views_run": 1000, "gen:skel": 100, "gen:cmd": 6, "gen:pe": 5, "gen:xorbytes": 5, "gen:repeatunit": 1000, "gen:reuse": 20}
 
 
 def plan(tier, seed):
@@ -30,7 +30,7 @@ def plan(tier, seed):
     for i in range(4):
         shards.append({"name": f"repeatunit{i}", "gen": "repeatunit", "shard": i, "nshards": 4})
     secs = 25 if quick else 300
-    for g in ("cmd", "pe", "xorbytes", "matryoshka", "nesting", "seedmut", "soup"):
+    for g in ("cmd", "pe", "xorbytes", "matryoshka", "nesting", "seedmut", "soup", "reuse"):
         shards.append({"name": g, "gen": g, "seconds": secs})
     if not quick:
         shards.append({"name": "seedmut2", "gen": "seedmut", "seconds": secs})
@@ -72,9 +72,50 @@ def judge(data: bytes, depth, ctx, label="replay"):
     ctx.sample_light(case, root)
 
 
+KEYWORDS = [b"VirtualAlloc", b"CreateObject", b"strlen", b"Invoke-Expression", b"HKEY_LOCAL_MACHINE", b"WScript.Shell", b"powershell"]
+
+
+def run_reuse(spec, ctx, r):
+    """Histories aimed at state keyed on object identity: a buffer with results near its end is scanned, its tree dropped
+    and collected, and a shorter buffer of the same allocation size class is created and scanned right afterwards (CPython
+    hands out the address that was just freed)."""
+    import gc
+
+    h = harness()
+    while not ctx.expired():
+        kw = r.choice(KEYWORDS)
+        pad = r.randint(8, 120)
+        a_hex = runner.hx(r.choice([b"-", b" ", b"x "]) * pad + b" " + kw)
+        short_by = r.randint(1, 12)
+        fill = r.choice([b"z", b" ", b"q.", b"-"])
+        case = {"label": "reuse", "first": a_hex, "short_by": short_by, "fill": runner.hx(fill), "depth": None}
+        if not ctx.begin(case):
+            continue
+        reuse_once(case, ctx, h, gc)
+
+
+def reuse_once(case, ctx, h, gc):
+    first = runner.unhx(case["first"])
+    n = max(1, len(first) - case["short_by"])
+    fill = runner.unhx(case["fill"])
+    try:
+        root = h.scan(first)
+        scan.run_views(root)
+    except Exception:  # noqa: BLE001 - judged below through judge() on its own
+        pass
+    root = None
+    first = None
+    gc.collect()
+    second = (fill * n)[:n]  # allocated right after the first buffer was freed
+    judge(second, None, ctx, "reuse")
+
+
 def run_shard(spec, ctx):
     common.add_sampler(ctx)
     r = runner.rng(ctx.seed, ID, spec["name"])
+    if spec["gen"] == "reuse":
+        run_reuse(spec, ctx, r)
+        return
     for label, data, depth in inputs.generate(spec, r):
         if ctx.expired():
             break
@@ -85,4 +126,8 @@ def run_shard(spec, ctx):
 
 def replay(case, ctx):
     common.add_sampler(ctx)
+    if case.get("label") == "reuse" and "first" in case:
+        import gc
+        reuse_once(case, ctx, harness(), gc)
+        return
     judge(runner.unhx(case["data"]), case.get("depth"), ctx, case.get("label", "replay"))
